@@ -34,6 +34,9 @@ type Spec struct {
 	Slices  []int  `json:"slices"`            // write sizes, cyclic
 	Actions []int  `json:"actions"`           // after each write, cyclic: 0 nothing, 1 flush, 2 flush + new session (stale tail kept), 3 flush + new session (tail cut)
 	Pre     []int  `json:"pre,omitempty"`     // the same actions, applied right after creation, before any data is written
+	// Grown (bowl stage): the old file on disk is this many bytes longer than the old build's container says
+	// (a log or save file appended to after install); the overlay is computed against what is on disk
+	Grown int `json:"grown,omitempty"`
 }
 
 func contents(s Spec) (old, nw []byte) {
@@ -411,6 +414,9 @@ var prop = h.Prop[Spec]{
 		if rapid.IntRange(0, 3).Draw(t, "pre-actions") == 0 {
 			s.Pre = rapid.SliceOfN(rapid.SampledFrom([]int{1, 2, 3}), 1, 3).Draw(t, "pre")
 		}
+		if rapid.IntRange(0, 3).Draw(t, "old-grown-on-disk") == 0 {
+			s.Grown = rapid.OneOf(rapid.IntRange(1, 100), rapid.IntRange(1, 200*1024)).Draw(t, "grown")
+		}
 		return s
 	},
 	Check: check,
@@ -452,7 +458,12 @@ func checkBowl(s Spec) h.Result {
 	if err := os.WriteFile(filepath.Join(out, "e"), old, 0o644); err != nil {
 		return h.Result{Skip: "cannot write"}
 	}
-	tc, sc := containers(len(old), len(nw))
+	recOld := len(old)
+	if s.Grown > 0 && s.Grown <= len(old) {
+		recOld = len(old) - s.Grown
+		cl = append(cl, "old:longer-on-disk-than-its-container-says")
+	}
+	tc, sc := containers(recOld, len(nw))
 	newBowl := func() (bowl.Bowl, error) {
 		return bowl.NewOverlayBowl(bowl.OverlayBowlParams{TargetContainer: tc, SourceContainer: sc, OutputFolder: out, StageFolder: stage, Consumer: h.Quiet()})
 	}
